@@ -172,7 +172,8 @@ def render_v3000(M, rng, perm=None, opts=None):
             last = parts[-1]
             if len(last) < 2:
                 break
-            cut = rng.randint(1, len(last) - 1)
+            # any offset, now and then the very end of the line (the continuation line then carries nothing)
+            cut = rng.randint(1, len(last) - 1) if rng.random() < 0.9 else len(last)
             parts[-1:] = [last[:cut] + "-", last[cut:]]
         for i, p in enumerate(parts):
             tb = "  " if (o["tailblank"] and i == len(parts) - 1 and rng.random() < 0.5) else ""
@@ -211,7 +212,7 @@ def render_v2000(M, rng, perm=None, opts=None):
     expressible = all(block_expressible(a) for a in M["atoms"])
     o = {"mode": rng.choice(["block", "lines", "both", "stale"] if expressible else ["lines", "stale"]), "group": rng.randint(1, 8),
          "zeros": rng.random() < 0.25, "dt": rng.random() < 0.5, "isodt": rng.random() < 0.3, "extra": rng.random() < 0.3,
-         "lists": rng.random() < 0.2, "trail": rng.random() < 0.25, "order": rng.choice(["cri", "irc", "mixed"]), "mmm": rng.random() < 0.5}
+         "lists": rng.random() < 0.2, "trail": rng.random() < 0.25, "order": rng.choice(["cri", "irc", "mixed"]), "mmm": rng.random() < 0.5, "dd": rng.random() < 0.25}
     o.update(opts or {})
     lines = [rng.choice(["", "ethanol V2000", "exported as V3000", "converted from V3000 to V2000", "M  END", "name"]), "  SPEC      0101000000",
              rng.choice(["", "checked V2000", "M  CHG  1   1   1", "comment"])]
@@ -230,7 +231,9 @@ def render_v2000(M, rng, perm=None, opts=None):
             code = rng.choice([0, 1, 3, 4, 5, 7])
         else:
             code = 0
-        lines.append(f"{a['x']:>10}{a['y']:>10}{a['z']:>10} {sym:<3} 0{code:3d}  0  0  0  0  0  0  0  0  0  0")
+        # dd, the legacy mass-difference column: the reader takes isotopes from M  ISO (and D / T) only, whatever dd says
+        dd = rng.choice([-1, -1, 1, 2, -3, 4]) if o["dd"] and rng.random() < 0.5 else 0
+        lines.append(f"{a['x']:>10}{a['y']:>10}{a['z']:>10} {sym:<3}{dd:2d}{code:3d}  0  0  0  0  0  0  0  0  0  0")
     bl = list(M["bonds"]); rng.shuffle(bl)
     for p, q, t in bl:
         e = [pos[p], pos[q]]
@@ -296,7 +299,7 @@ def reader_stress_texts(rng, tier):
     for i in range(n):
         M = abstract_molecule(rng, 6, pool=rng.choice([["C", "H", "O", "Cl", "Br", "Na"], ["H", "H", "O", "C"]]), coords=["0", "1.5", "-2.25"])
         if rng.random() < 0.5 and fits_v2000(M):
-            lines, info = render_v2000(M, rng, opts={"zeros": True} if rng.random() < 0.5 else None)
+            lines, info = render_v2000(M, rng, opts=dict({"zeros": True} if rng.random() < 0.5 else {}, dd=rng.random() < 0.6))
             if rng.random() < 0.5:      # zero-valued ISO entries, preferably on D / T atoms
                 dts = [k for k, a in enumerate(M["atoms"]) if a["sym"] == "H" and a["mass"] in (2, 3)]
                 k = rng.choice(dts) if dts and rng.random() < 0.8 else rng.randrange(len(M["atoms"]))
